@@ -17,7 +17,7 @@ def base_api(api):
 
 def key_of(ev, tag):
     extra = ""
-    if ev.get("sym") == "ean":
+    if ev.get("sym") in ("ean", "aztec"):
         extra = " len=%d" % len(ev["content"])
     if ev["op"] == "addchecksum":
         return "twooffive.AddCheckSum why=%s" % tag
@@ -70,6 +70,66 @@ def judge(chk, drive, jobs, module, cfg, nshards, tags_wanted, shard_key=None, h
             what = describe(ev, why) if describe else "%s: content=%r -> %s" % (k, bytes(ev["content"])[:40], why)
             chk.report(k, what, dict(jobs=rjobs[max(0, idx - 1):idx + 1] if why.startswith("pattern-depends") else [rjobs[idx]], expect=why))
     return evs, extras
+
+
+FAMILY = {"c128": "Trace1D", "ean": "Trace1D", "c39": "Trace1D", "c93": "Trace1D", "codabar": "Trace1D", "25": "Trace1D",
+          "qr": "TraceQR", "dm": "TraceDM", "aztec": "TraceAztec", "pdf": "TracePDF"}
+HEAP = {"Trace1D": "3g", "TraceQR": "5g", "TraceDM": "5g", "TraceAztec": "5g", "TracePDF": "4g"}
+
+
+def module_of(ev):
+    if ev.get("op") == "addchecksum":
+        return "Trace1D"
+    return FAMILY.get(ev.get("sym"), "Trace1D")
+
+
+def judge_multi(chk, drive, jobs, tags_wanted, nshards=14, describe=None, timeout=6000):
+    """Like judge, for job lists that mix symbologies: events are routed to their family's trace specification."""
+    evs = vlib.run_drive(drive, jobs, chk.work)
+    byfam = {}
+    for e in evs:
+        byfam.setdefault(module_of(e), []).append(e)
+    total = sum(vlib._weight(e) for e in evs) or 1
+    allbad, allextras = [], {}
+    for mod, fevs in byfam.items():
+        share = max(1, round(nshards * sum(vlib._weight(e) for e in fevs) / total))
+        shards = vlib.shard(fevs, share)
+        acc, bad, st, tr, extras = vlib.validate_traces(chk.work, mod, mod + ".cfg", shards, timeout=timeout, heap=HEAP[mod], want_extra=True)
+        chk.cov["states"] += st
+        chk.cov["transitions"] += tr
+        for b in bad:
+            b["module"] = mod
+        allbad += bad
+        allextras[mod] = extras
+    unrep = {(b["module"], b["shard"], b["l"]) for b in allbad if b["why"] == "accept-unrepresentable"}
+    allbad = [b for b in allbad if not (is_roundtrip(b["why"]) and (b["module"], b["shard"], b["l"]) in unrep)]
+    mine = [b for b in allbad if tags_wanted(b["event"], b["why"])]
+    chk.cov["traces_validated_against_impl"] += len(evs) - len({(b["module"], b["shard"], b["l"]) for b in mine})
+    chk.cov["other_properties_tags_seen"] = sorted({b["why"] for b in allbad if not tags_wanted(b["event"], b["why"])})
+    reps = {}
+    for b in mine:
+        reps.setdefault(key_of(b["event"], b["why"]), b)
+    for k, b in list(reps.items())[:40]:
+        ev, mod = b["event"], b["module"]
+        rjobs = []
+        if b["why"].startswith("pattern-depends") or b["why"] == "auto-not-minimal":
+            prev = [e for e in evs if e["i"] < ev["i"] and e.get("sym") == ev.get("sym") and e.get("content") == ev.get("content") and
+                    (b["why"] == "auto-not-minimal" or (e.get("p") == ev.get("p") and base_api(e.get("api", "")) == base_api(ev.get("api", ""))))]
+            rjobs += [strip(e) for e in (prev[:1] if b["why"].startswith("pattern") else [e for e in prev if e["p"][1:2] == [0]][:1])]
+        rjobs.append(strip(ev))
+        sub = vlib.run_drive(drive, rjobs, chk.work, name="repro")
+        _, bad2, _, _ = vlib.validate_traces(chk.work, mod, mod + ".cfg", [sub], heap=HEAP[mod], timeout=timeout)
+        if (len(rjobs), b["why"]) not in {(x["l"], x["why"]) for x in bad2}:
+            raise vlib.Inconclusive("unreproduced rejection: %s" % k)
+        what = describe(sub[-1], b["why"]) if describe else "%s: content=%r -> %s" % (k, bytes(ev["content"])[:40], b["why"])
+        chk.report(k, what, dict(jobs=rjobs, expect=b["why"], module=mod))
+    return evs, allextras
+
+
+def replay_multi(prop, path):
+    r = json.load(open(path))["replay"]
+    mod = r.get("module", "Trace1D")
+    return replay_generic(prop, path, mod, mod + ".cfg", heap=HEAP.get(mod, "4g"))
 
 
 def replay_generic(prop, path, module, cfg, heap="3g"):
